@@ -344,7 +344,8 @@ class CSSSerializer(object):
         self._level = 0  # current nesting level
 
         # TODO:
-        self._selectors = []  # holds SelectorList
+        # holds SelectorList, while a sheet is written (else None)
+        self._selectors = None
         self._selectorlevel = 0  # current specificity nesting level
 
     def _atkeyword(self, rule):
@@ -410,21 +411,26 @@ class CSSSerializer(object):
 
     def do_CSSStyleSheet(self, stylesheet):
         """serializes a complete CSSStyleSheet"""
-        # (the nesting by specificity starts anew with every sheet)
+        # (the nesting by specificity starts anew with every sheet and ends
+        # with it: a rule written on its own is not nested in anything)
         self._selectors = []
         self._selectorlevel = 0
         useduris = stylesheet._getUsedURIs()
         out = []
-        for rule in stylesheet.cssRules:
-            if self.prefs.keepUsedNamespaceRulesOnly and\
-               rule.NAMESPACE_RULE == rule.type and\
-               rule.namespaceURI not in useduris and (
-                    rule.prefix or None not in useduris):
-                continue
+        try:
+            for rule in stylesheet.cssRules:
+                if self.prefs.keepUsedNamespaceRulesOnly and\
+                   rule.NAMESPACE_RULE == rule.type and\
+                   rule.namespaceURI not in useduris and (
+                        rule.prefix or None not in useduris):
+                    continue
 
-            cssText = rule.cssText
-            if cssText:
-                out.append(cssText + self.prefs.linesAfterRules)
+                cssText = rule.cssText
+                if cssText:
+                    out.append(cssText + self.prefs.linesAfterRules)
+        finally:
+            self._selectors = None
+            self._selectorlevel = 0
         text = self._linenumbers(self.prefs.lineSeparator.join(out))
 
         # get encoding of sheet, defaults to UTF-8
@@ -789,7 +795,7 @@ class CSSSerializer(object):
 
         # prepare for element nested rules
         # TODO: sort selectors!
-        if self.prefs.indentSpecificities:
+        if self.prefs.indentSpecificities and self._selectors is not None:
             # subselectorlist?
             elements = set([s.element for s in rule.selectorList])
             specitivities = [s.specificity for s in rule.selectorList]
